@@ -705,6 +705,12 @@ func (s *SSEServer) handleNotificationMessage(ctx context.Context, rawMessage js
 		return
 	}
 
+	// The handshake is complete once the client has sent notifications/initialized: from then on the
+	// session accepts server-initiated notifications (sendNotificationToSession checks Initialized()).
+	if notification.Method == MethodNotificationsInitialized {
+		session.Initialize()
+	}
+
 	// Handle notification asynchronously.
 	go func() {
 		// Create a context that will not be canceled due to HTTP connection closure.
